@@ -59,8 +59,17 @@ import (
 
 const (
 	setupDeadline = 40 * time.Second // handshake + NewConnection; beyond this the endpoint is stuck, not slow
-	quietFirst    = 4 * time.Second  // first pass: how long "nothing happened" is believed
-	quietFinal    = 15 * time.Second // undisturbed second pass
+	// "Nothing (more) happens" is decided from the muxer's own events: once the
+	// read loop has demonstrably read the probe segment (Recv event), the case
+	// waits for a grace period without any further event / error, not for a fixed
+	// deadline.  A mismatch seen that way in the first, fully concurrent pass is
+	// never reported: the case is re-run in a small pool with a long grace.
+	unreadFirst = 8 * time.Second         // first pass: the segment was not even read by then
+	graceFirst  = 1500 * time.Millisecond // first pass: quiet time after the segment was read
+	unreadFinal = 25 * time.Second
+	graceFinal  = 8 * time.Second
+	finalPool   = 4  // concurrency of the second pass
+	coarseMax   = 12 // disagreements reported (and second-pass runs spent) per coarse class
 )
 
 // ---------------------------------------------------------------------------
@@ -130,6 +139,8 @@ type observed struct {
 	Closed     bool            `json:"error_chan_closed"`
 	MuxErr     []string        `json:"muxer_err_events"`
 	MuxExit    bool            `json:"muxer_read_loop_exited"`
+	Read       bool            `json:"muxer_read_the_segment"`
+	Quiet      bool            `json:"decided_by_quiet_period"`
 	WriteErr   string          `json:"probe_write_error,omitempty"`
 	Waited     string          `json:"waited"`
 	PeerSaw    []string        `json:"segments_sent_by_connection,omitempty"`
@@ -151,11 +162,44 @@ var (
 	seed int64
 	// at most this many disagreements are reported per (configuration, set-up | direction);
 	// the rest is counted (one defect shows on every protocol number of a configuration)
-	limit = hs.NewLimiter(4)
+	limit = newLimiter(4)
+	// and at most coarseMax per (kind, side, direction | set-up, kind of mismatch)
+	coarse = newLimiter(coarseMax)
 
 	statMu sync.Mutex
 	stats  = map[string]int{}
 )
+
+type limiter struct {
+	mu     sync.Mutex
+	max    int
+	counts map[string]int
+}
+
+func newLimiter(max int) *limiter { return &limiter{max: max, counts: map[string]int{}} }
+
+func (l *limiter) take(class string) bool {
+	l.mu.Lock()
+	defer l.mu.Unlock()
+	l.counts[class]++
+	return l.counts[class] <= l.max
+}
+
+func (l *limiter) full(class string) bool {
+	l.mu.Lock()
+	defer l.mu.Unlock()
+	return l.counts[class] >= l.max
+}
+
+func (l *limiter) total() int {
+	l.mu.Lock()
+	defer l.mu.Unlock()
+	n := 0
+	for _, c := range l.counts {
+		n += c
+	}
+	return n
+}
 
 func stat(k string) {
 	statMu.Lock()
@@ -209,7 +253,7 @@ func poke(ch chan struct{}) {
 func installTracers() {
 	muxer.VerifTracer = func(m *muxer.Muxer, e muxer.VerifEvent) {
 		switch e.Ev {
-		case "Reg", "Unreg", "Route", "Deliver", "Drop", "Err", "Exit":
+		case "Reg", "Unreg", "Recv", "Route", "Deliver", "Drop", "Err", "Exit":
 		default:
 			return
 		}
@@ -499,7 +543,7 @@ func roleName(r muxer.ProtocolRole) string {
 
 // run executes one case; it returns a non-empty text if the case could not be
 // decided (set-up did not finish, nothing observable within the patience).
-func run(j *job, final bool) (undecided string) {
+func run(j *job, final bool) (undecided string, class string) {
 	r := j.Row
 	sg := &r.Segs[j.Seg]
 	pick := hs.Mix(seed, r.cfgKey(), sg.key(), j.Variant)
@@ -518,9 +562,9 @@ func run(j *job, final bool) (undecided string) {
 	slim.Segs = []segRow{*sg}
 	rp := &replay{Job: job{Row: &slim, Seg: 0, Variant: j.Variant}, Seed: seed, Magic: magic, Version: version, Fragment: fragment,
 		Probe: fmt.Sprintf("%x", payload), Expected: *sg}
-	quiet := quietFirst
+	unread, grace := unreadFirst, graceFirst
 	if final {
-		quiet = quietFinal
+		unread, grace = unreadFinal, graceFinal
 	}
 
 	rep.Guard(key, rp, func() {
@@ -641,6 +685,9 @@ func run(j *job, final bool) (undecided string) {
 			ml.mu.Lock()
 			ob.MuxErr = ob.MuxErr[:0]
 			for _, e := range ml.evs[nSetup:] {
+				if e.Ev == "Recv" && int(e.Id) == sg.Id && e.Response == sg.Resp {
+					ob.Read = true
+				}
 				if e.Ev == "Deliver" && int(e.Id) == sg.Id && e.Role == role {
 					ob.Delivered = true
 				}
@@ -676,16 +723,39 @@ func run(j *job, final bool) (undecided string) {
 			return ob.Handled
 		}
 		start := time.Now()
-		timer := time.NewTimer(quiet)
-		defer timer.Stop()
+		lastProgress := start
 		errCh := c.ErrorChan()
-	wait:
+		fp := func() string {
+			return fmt.Sprint(ob.Read, ob.Delivered, ob.Handled, ob.App, ob.Closed, ob.MuxExit, len(ob.Errors), len(ob.MuxErr))
+		}
 		for {
+			before := fp()
 			snapshot()
+			if fp() != before {
+				lastProgress = time.Now()
+			}
 			if settled() {
 				ob.Waited = "settled after " + time.Since(start).Round(time.Millisecond).String()
 				break
 			}
+			now := time.Now()
+			var wait time.Duration
+			if ob.Read || ob.Delivered || len(ob.Errors) > 0 || ob.Closed {
+				wait = lastProgress.Add(grace).Sub(now)
+				if wait <= 0 {
+					ob.Quiet = true
+					ob.Waited = fmt.Sprintf("the muxer read the segment; nothing more for %s (%s after the write)", grace, now.Sub(start).Round(time.Millisecond))
+					break
+				}
+			} else {
+				wait = start.Add(unread).Sub(now)
+				if wait <= 0 {
+					ob.Quiet = true
+					ob.Waited = "the muxer has not read the segment after " + unread.String()
+					break
+				}
+			}
+			t := time.NewTimer(wait)
 			select {
 			case err, ok := <-errCh:
 				if !ok {
@@ -696,11 +766,9 @@ func run(j *job, final bool) (undecided string) {
 				}
 			case <-ml.notify:
 			case <-cl.notify:
-			case <-timer.C:
-				snapshot()
-				ob.Waited = "nothing more after " + quiet.String()
-				break wait
+			case <-t.C:
 			}
+			t.Stop()
 		}
 		// an error that is already on its way is still counted
 		if !ob.Closed && len(ob.Errors) == 0 {
@@ -716,9 +784,9 @@ func run(j *job, final bool) (undecided string) {
 		ob.PeerSaw = append([]string(nil), peer.saw...)
 		peer.mu.Unlock()
 
-		undecided = compareProbe(r, sg, key, rp, ob, final)
+		undecided, class = compareProbe(r, sg, key, rp, ob, final)
 	})
-	return undecided
+	return undecided, class
 }
 
 func closeConn(c *ouroboros.Connection) {
@@ -762,7 +830,7 @@ func compareSetup(r *row, rp *replay, acc map[int]bool, reg map[string]bool) {
 		if (id == 2 && r.Kind != "ntn") || (id == 5 && r.Kind != "ntc") {
 			continue // one ChainSync() accessor serves both chain-sync numbers
 		}
-		if !tri(want, got) && once(fmt.Sprintf("acc%d", id)) && limit.Take(r.cfgKey()+":setup") {
+		if !tri(want, got) && once(fmt.Sprintf("acc%d", id)) && limit.take(r.cfgKey()+":setup") && coarse.take(sideKey(r)+":setup:accessor") {
 			rep.Disagree(fmt.Sprintf("setup:%s:accessor=%d", r.cfgKey(), id),
 				fmt.Sprintf("protocol %d: the specification says constructed=%s (enabled by the negotiation: %v), the connection's accessor is non-nil=%v",
 					id, want, r.Enabled, got), rp)
@@ -776,7 +844,7 @@ func compareSetup(r *row, rp *replay, acc map[int]bool, reg map[string]bool) {
 		role := it[1].(string)
 		want := it[2].(string)
 		got := reg[fmt.Sprintf("%d/%s", id, role)]
-		if !tri(want, got) && once(fmt.Sprintf("reg%d%s", id, role)) && limit.Take(r.cfgKey()+":setup") {
+		if !tri(want, got) && once(fmt.Sprintf("reg%d%s", id, role)) && limit.take(r.cfgKey()+":setup") && coarse.take(sideKey(r)+":setup:registered/"+role+"="+yn(got)) {
 			rep.Disagree(fmt.Sprintf("setup:%s:registered=%d/%s", r.cfgKey(), id, role),
 				fmt.Sprintf("protocol %d role %s: the specification says started=%s (negotiated roles %v, enabled protocols %v), registered with the muxer=%v",
 					id, role, want, r.Roles, r.Enabled, got), rp)
@@ -798,10 +866,18 @@ func compareSetup(r *row, rp *replay, acc map[int]bool, reg map[string]bool) {
 	}
 }
 
-func compareProbe(r *row, sg *segRow, key string, rp *replay, ob *observed, final bool) string {
+func sideKey(r *row) string {
+	if r.Server {
+		return r.Kind + ":server"
+	}
+	return r.Kind + ":client"
+}
+
+func compareProbe(r *row, sg *segRow, key string, rp *replay, ob *observed, final bool) (string, string) {
 	gotErr := len(ob.Errors) > 0
-	var bad []string
+	var bad, sig []string
 	if !tri(sg.Deliver, ob.Delivered) {
+		sig = append(sig, "deliver")
 		bad = append(bad, fmt.Sprintf("delivered by the muxer: expected %s, observed %v", sg.Deliver, ob.Delivered))
 	}
 	if !sg.Resp {
@@ -810,29 +886,34 @@ func compareProbe(r *row, sg *segRow, key string, rp *replay, ob *observed, fina
 			app = ob.App
 		}
 		if !tri(sg.App, app) {
+			sig = append(sig, "app")
 			bad = append(bad, fmt.Sprintf("request reached the responder's handler/callback: expected %s, observed %v", sg.App, app))
 		}
 	}
 	if sg.Gate && !gotErr {
+		sig = append(sig, "noerror")
 		bad = append(bad, "the connection must close with an error (direction gate), ErrorChan reported none")
 	}
 	if sg.Gate && gotErr && !ob.Closed {
+		sig = append(sig, "notclosed")
 		bad = append(bad, "an error was reported but ErrorChan was not closed")
 	}
-	timedOut := strings.HasPrefix(ob.Waited, "nothing more")
-	if len(bad) > 0 && timedOut && !final {
-		return "not settled: " + strings.Join(bad, "; ")
+	class := sideKey(r) + map[bool]string{true: ":resp:", false: ":req:"}[sg.Resp] + strings.Join(sig, "+")
+	if len(bad) > 0 && ob.Quiet && !final {
+		return "not settled: " + strings.Join(bad, "; "), class
 	}
 	rep.Case(key, true)
 	rep.Sample(map[string]any{"case": key, "expected": map[string]any{"deliver": sg.Deliver, "app": sg.App, "err": sg.Err, "why": sg.Why},
 		"observed": map[string]any{"delivered": ob.Delivered, "handled": ob.Handled, "app": ob.App, "errors": ob.Errors, "closed": ob.Closed}})
 	if len(bad) > 0 {
-		if !limit.Take(r.cfgKey() + map[bool]string{true: ":resp", false: ":req"}[sg.Resp]) {
-			return ""
+		// both counters always count; a disagreement is reported while neither is exhausted
+		a := limit.take(r.cfgKey() + map[bool]string{true: ":resp", false: ":req"}[sg.Resp])
+		b := coarse.take(class)
+		if a && b {
+			rep.Disagree(key, fmt.Sprintf("negotiated roles %v, enabled %v, specification: %v; %s; muxer errors %v, ErrorChan %v; %s",
+				r.Roles, r.Enabled, sg.Why, strings.Join(bad, "; "), ob.MuxErr, ob.Errors, ob.Waited), rp)
 		}
-		rep.Disagree(key, fmt.Sprintf("negotiated roles %v, enabled %v, specification: %v; %s; muxer errors %v, ErrorChan %v",
-			r.Roles, r.Enabled, sg.Why, strings.Join(bad, "; "), ob.MuxErr, ob.Errors), rp)
-		return ""
+		return "", class
 	}
 	// observations the property does not decide
 	if sg.Err == "yes" && !sg.Gate && !gotErr {
@@ -858,7 +939,7 @@ func compareProbe(r *row, sg *segRow, key string, rp *replay, ob *observed, fina
 		o = strings.Join(sg.Why, "+")
 	}
 	stat("spec_outcome:" + o)
-	return ""
+	return "", class
 }
 
 // ---------------------------------------------------------------------------
@@ -941,15 +1022,17 @@ func main() {
 	var mu sync.Mutex
 	var retry []*job
 	why := map[*job]string{}
+	classOf := map[*job]string{}
 	for w := 0; w < workers; w++ {
 		wg.Add(1)
 		go func() {
 			defer wg.Done()
 			for j := range ch {
-				if t := run(j, false); t != "" {
+				if t, cls := run(j, false); t != "" {
 					mu.Lock()
 					retry = append(retry, j)
 					why[j] = t
+					classOf[j] = cls
 					mu.Unlock()
 				}
 			}
@@ -960,16 +1043,47 @@ func main() {
 	}
 	close(ch)
 	wg.Wait()
-	// cases that did not settle under load get a second, undisturbed run with more patience
+	// Cases whose first run ended in a quiet period with a mismatch (or whose set-up
+	// did not finish) are re-run in a small pool with a long grace period; only that
+	// run can report them.  Once a coarse class has its coarseMax disagreements the
+	// remaining cases of the class are counted, not re-run.
+	sort.Slice(retry, func(a, b int) bool {
+		ka := retry[a].Row.cfgKey() + retry[a].Row.Segs[retry[a].Seg].key()
+		kb := retry[b].Row.cfgKey() + retry[b].Row.Segs[retry[b].Seg].key()
+		return ka < kb
+	})
 	unsupported := map[string]bool{}
+	skipped := map[string]int{}
+	rch := make(chan *job)
+	var rwg sync.WaitGroup
+	for w := 0; w < finalPool; w++ {
+		rwg.Add(1)
+		go func() {
+			defer rwg.Done()
+			for j := range rch {
+				if t, _ := run(j, true); t != "" {
+					rep.Dead("%s:%s twice undecided: %s (first: %s)", j.Row.cfgKey(), j.Row.Segs[j.Seg].key(), t, why[j])
+				}
+			}
+		}()
+	}
+	reran := 0
 	for _, j := range retry {
 		if strings.Contains(why[j], "UNSUPPORTED") {
 			unsupported[fmt.Sprintf("%s/%d", j.Row.Kind, j.Row.Ver)] = true
 			continue
 		}
-		if t := run(j, true); t != "" {
-			rep.Dead("%s:%s twice undecided: %s (first: %s)", j.Row.cfgKey(), j.Row.Segs[j.Seg].key(), t, why[j])
+		if cls := classOf[j]; cls != "" && coarse.full(cls) {
+			skipped[cls]++
+			continue
 		}
+		reran++
+		rch <- j
+	}
+	close(rch)
+	rwg.Wait()
+	if len(skipped) > 0 {
+		rep.Extra["first_pass_mismatches_not_rerun_class_already_reported"] = skipped
 	}
 	if len(unsupported) > 0 {
 		ks := []string{}
@@ -979,14 +1093,11 @@ func main() {
 		sort.Strings(ks)
 		rep.Dead("the model enumerates versions the library does not propose: %v", ks)
 	}
-	rep.Extra["retried_undisturbed"] = len(retry)
-	if len(limit.Counts) > 0 {
-		n := 0
-		for _, c := range limit.Counts {
-			n += c
-		}
+	rep.Extra["first_pass_undecided"] = len(retry)
+	rep.Extra["rerun_in_small_pool"] = reran
+	if n := limit.total(); n > 0 {
 		rep.Extra["disagreements_found"] = n
-		rep.Extra["disagreements_reported_per_configuration_and_direction_at_most"] = limit.Max
+		rep.Extra["disagreements_reported_at_most"] = fmt.Sprintf("%d per configuration and direction, %d per coarse class", limit.max, coarse.max)
 	}
 	rep.Extra["observations"] = stats
 	rep.Finish()
